@@ -88,6 +88,12 @@ def f_pair(par, g):
     return f
 
 
+def f_batch(rows, wl, wr):
+    """NOT window-local on purpose: tells which batch compute was called with (first id, length)"""
+    first = rows[0][2] if rows else 0
+    return [(a, b, i * 1000000 + first * 1000 + len(rows)) for a, b, i in rows]
+
+
 def f_cross(rows, other, wl, wr):
     return [(a, b, i * 1000 + sum(1 for n in other if near(wl, wr, (a, b, i), n))) for a, b, i in rows]
 
@@ -97,7 +103,7 @@ def comp_fn(name):
     parts = name.split(":")
     if parts[0] == "cross":
         return lambda kinds, wl, wr: f_cross(kinds[0], kinds[1], wl, wr) if len(kinds) == 2 else []
-    base = {"ident": f_ident, "count": f_count, "sum": f_sum}.get(parts[0])
+    base = {"ident": f_ident, "count": f_count, "sum": f_sum, "batch": f_batch}.get(parts[0])
     if parts[0] == "gap":
         base = f_gap(int(parts[1]))
     elif parts[0] in ("pair0", "pair1"):
@@ -110,7 +116,7 @@ def local_within(name, wl, wr):
     parts = name.split(":")
     if parts[0] in ("gap", "pair0", "pair1"):
         return int(parts[1]) <= min(wl, wr)
-    return True
+    return parts[0] != "batch"
 
 
 # ----------------------------------------------------------------------------- real plugins
@@ -520,10 +526,10 @@ def run(ctx):
     cases = []
     for _ in range(ctx.pick(600, 4000)):
         wl, wr = rand_window(rng)
-        cases.append(dict(comp=pick_comp(rng, wl, wr), wl=wl, wr=wr,
+        cases.append(dict(comp="batch" if rng.random() < 0.08 else pick_comp(rng, wl, wr), wl=wl, wr=wr,
                           rows=[list(r) for r in disjoint_rows(rng, rng.randint(0, 12))]))
     ctx.correspond("whole", cases, impl_whole, op_whole, oracle_whole, nontrivial=lambda c, o: len(c["rows"]) >= 2,
-                   rule="random disjoint runs x windows 0..12 (sym/asym) x {ident,count,sum,gap:g,pair0/1:g}: the plugin's compute on the whole run == the Lean computation; per-row ones re-evaluated on each row's neighbourhood alone",
+                   rule="random disjoint runs x windows 0..12 (sym/asym) x {ident,count,sum,batch,gap:g,pair0/1:g}: the plugin's compute on the whole run == the Lean computation; per-row ones re-evaluated on each row's neighbourhood alone",
                    branch=lambda c, o: c["comp"].split(":")[0])
 
     # 1. exhaustive small scope, directly through iter: all disjoint runs x all chunkings x small windows
@@ -550,6 +556,18 @@ def run(ctx):
         cases.append(dict(comps=[pick_comp(rng, wl, wr)], wl=wl, wr=wr, chunks=chunks, valid=True))
     ctx.correspond("iter/single", cases, impl_iter, op_iter, oracle_run, nontrivial=nontrivial,
                    rule="random disjoint runs (0..14 rows, rows up to 7x longer than the base length, gaps 0..24) x chunkings (every admissible cut with p in {.12,.4,.85}, zero-duration chunks, one giant chunk) x windows 0..12 symmetric / one-sided / asymmetric x {ident,count,sum,gap:g<=w,pair:g<=w}",
+                   branch=branch_of, in_hyp=lambda c, o: stream_ok(c["chunks"]))
+
+    # 2b. what `compute` is called with: a computation that encodes its batch into every output row (not
+    #     window-local, so no oracle) makes the input cache rule visible to the correspondence
+    cases = []
+    for _ in range(ctx.pick(2500, 20000)):
+        rows, chunks = run_case(rng, n=rng.randint(1, 14))
+        wl, wr = rand_window(rng)
+        comps = ["batch"] if rng.random() < 0.7 else ["batch", pick_comp(rng, wl, wr)]
+        cases.append(dict(comps=comps, wl=wl, wr=wr, chunks=chunks, valid=True))
+    ctx.correspond("iter/batches", cases, impl_iter, op_iter, oracle_run, nontrivial=nontrivial,
+                   rule="as iter/single / iter/multi with a computation whose output rows carry the first id and the length of the batch `compute` received: agreement = same prepended input cache in every call",
                    branch=branch_of, in_hyp=lambda c, o: stream_ok(c["chunks"]))
 
     # 3. random, directly through iter: multi-output (2..3 outputs incl. interlocking group-forming ones)
